@@ -3358,7 +3358,7 @@ func (bc *Blockchain) GetTestHistoricVM(t trigger.Type, tx *transaction.Transact
 	if bc.config.KeepOnlyLatestState {
 		return nil, errors.New("only latest state is supported")
 	}
-	b, err := bc.GetFakeNextBlock(nextBlockHeight)
+	b, err := bc.fakeNextBlock(nextBlockHeight)
 	if err != nil {
 		return nil, fmt.Errorf("failed to create fake block for height %d: %w", nextBlockHeight, err)
 	}
@@ -3389,20 +3389,43 @@ func (bc *Blockchain) GetTestHistoricVM(t trigger.Type, tx *transaction.Transact
 	if err != nil {
 		return nil, fmt.Errorf("failed to initialize native cache backed by historic DAO: %w", err)
 	}
+	// The fake block follows its predecessor by the block time that was in
+	// force at that height, not by the current one.
+	var (
+		hf         = config.HFEchidna
+		msPerBlock = uint32(bc.config.TimePerBlock.Milliseconds())
+	)
+	if bc.IsHardforkEnabled(&hf, b.Index-1) {
+		msPerBlock = bc.policy.GetMillisecondsPerBlockInternal(dTrie)
+	}
+	b.Timestamp += uint64(msPerBlock)
 	systemInterop := bc.newInteropContext(t, dTrie, b, tx)
 	_ = systemInterop.SpawnVM() // All the other code suppose that the VM is ready.
 	return systemInterop, nil
 }
 
-// GetFakeNextBlock returns fake block with the specified index and pre-filled Timestamp field.
+// GetFakeNextBlock returns fake block with the specified index and pre-filled
+// Timestamp field. The timestamp is derived from the current block time, so it
+// suits the block that follows the current one.
 func (bc *Blockchain) GetFakeNextBlock(nextBlockHeight uint32) (*block.Block, error) {
+	b, err := bc.fakeNextBlock(nextBlockHeight)
+	if err != nil {
+		return nil, err
+	}
+	b.Timestamp += uint64(bc.GetMillisecondsPerBlock())
+	return b, nil
+}
+
+// fakeNextBlock returns fake block with the specified index and the timestamp
+// of its predecessor.
+func (bc *Blockchain) fakeNextBlock(nextBlockHeight uint32) (*block.Block, error) {
 	b := block.New(bc.config.StateRootInHeader)
 	b.Index = nextBlockHeight
 	hdr, err := bc.GetHeader(bc.GetHeaderHash(nextBlockHeight - 1))
 	if err != nil {
 		return nil, err
 	}
-	b.Timestamp = hdr.Timestamp + uint64(bc.GetMillisecondsPerBlock())
+	b.Timestamp = hdr.Timestamp
 	return b, nil
 }
 
